@@ -47,6 +47,15 @@ fn stats_json(s: &Stats) -> J {
         .set("clock_drift_ops", J::u(s.clock_drift_ops))
         .set("clock_jumps", J::u(s.clock_jumps))
         .set("clock_ns_added", J::u(s.clock_ns_added))
+        .set("bb_yields", J::u(s.bb_yields))
+        .set("bb_rare_yields", J::u(s.bb_rare_yields))
+        .set("preempt_bb", J::u(s.preempt_bb))
+        .set("preempt_bb_rare", J::u(s.preempt_bb_rare))
+        .set("bb_guards_passed", J::u(s.bb_guards_passed))
+        .set("futex_waits", J::u(s.futex_waits))
+        .set("futex_wakes", J::u(s.futex_wakes))
+        .set("futex_timeouts", J::u(s.futex_timeouts))
+        .set("sleeps_simulated", J::u(s.sleeps_simulated))
 }
 
 fn fnv_u32s(d: &[u32]) -> u64 {
@@ -83,7 +92,7 @@ fn plan_brief(plan: &Plan) -> J {
                     h.pool,
                     split_name(h.split),
                     sched_name(h.sched),
-                    if h.hooks { "+hooks" } else { "" }
+                    if h.bb && h.hooks { "+hooks+bb" } else if h.bb { "+bb" } else if h.hooks { "+hooks" } else { "" }
                 ))
             })),
         )
@@ -111,6 +120,7 @@ pub fn cmd_e1(args: &Args) -> i32 {
     let mut values_compared = 0u64;
     let mut panics_both = 0u64;
     let mut hashes: BTreeSet<u64> = BTreeSet::new();
+    let mut sections = 0u64;
     let mut shapes: BTreeSet<u64> = BTreeSet::new();
     let mut modes: BTreeMap<String, u64> = BTreeMap::new();
     let mut pools: BTreeMap<usize, u64> = BTreeMap::new();
@@ -178,6 +188,7 @@ pub fn cmd_e1(args: &Args) -> i32 {
         }
         // op_hashes has one entry per *root parallel section*, several per op
         for (ih, sh, leaves) in &r.op_hashes {
+            sections += 1;
             if *leaves >= 2 && r.stats.workers_used_max >= 2 {
                 hashes.insert(*ih);
                 nontrivial = true;
@@ -279,6 +290,7 @@ pub fn cmd_e1(args: &Args) -> i32 {
                 .set("simulated_histories", J::Num(T_SIM.load(std::sync::atomic::Ordering::Relaxed) as f64 / 1e6)),
         )
         .set("stats", stats_json(&total))
+        .set("parallel_sections", J::u(sections))
         .set("distinct_interleavings", J::u(hashes.len() as u64))
         .set("distinct_split_shapes", J::u(shapes.len() as u64))
         .set("modes", J::Obj(modes.into_iter().map(|(k, v)| (k, J::u(v))).collect()))
